@@ -260,7 +260,11 @@ pub fn check(case: &Case, _tier: Tier) -> Outcome {
   if let Some((which, to)) = case.jsr_file_redirect {
     let files: Vec<&crate::harness::LoadCall> = log0
       .iter()
-      .filter(|c| c.spec.starts_with(crate::registry::REGISTRY) && !c.spec.ends_with("meta.json") && c.cache != "only")
+      .filter(|c| {
+        !c.spec.ends_with("meta.json")
+          && c.cache != "only"
+          && ModuleSpecifier::parse(&c.spec).map(|u| crate::props::c07::nv_of_url(&u).is_some()).unwrap_or(false)
+      })
       .collect();
     if !files.is_empty() && !loaded.is_empty() {
       let call = files[idx(which, files.len())];
@@ -420,7 +424,11 @@ fn check_faulted(
   // itself gets the error entry
   if !restarted {
     for ((spec, attempt), f) in lf.faults.iter() {
-      if *attempt != 0 || !spec.starts_with(crate::registry::REGISTRY) || spec.ends_with("meta.json") {
+      if *attempt != 0 || spec.ends_with("meta.json") {
+        continue;
+      }
+      // a file inside the directory of a package version
+      if !ModuleSpecifier::parse(spec).map(|u| crate::props::c07::nv_of_url(&u).is_some()).unwrap_or(false) {
         continue;
       }
       let target = match f {
@@ -552,10 +560,27 @@ fn check_faulted(
               || gf.imports.contains_key(&range.specifier);
             // a loader answering under a final specifier it serves otherwise
             // makes the identity of the referring module ambiguous
-            let ambiguous = lf
-              .faults
-              .values()
-              .any(|f| matches!(f, Fault::FinalSpec(_)));
+            // (by a fault, or because the world serves it both directly and
+            // as the final specifier of a loader-followed redirect: the later
+            // answer replaces the module the error's referrer was)
+            let deliveries = logf
+              .iter()
+              .filter(|c| {
+                let mut key = c.spec.clone();
+                for _ in 0..6 {
+                  match b.world.entries.get(&key) {
+                    Some(world::Entry::Alias { to }) => key = to.clone(),
+                    _ => break,
+                  }
+                }
+                key == range.specifier.as_str()
+              })
+              .count();
+            let ambiguous = deliveries >= 2
+              || lf
+                .faults
+                .values()
+                .any(|f| matches!(f, Fault::FinalSpec(_)));
             if !found && referrer_present && !ambiguous {
               o.violate(
                 "C03/error-referrer-is-not-an-importer",
